@@ -130,6 +130,14 @@ def sym_len(x):
         return x.n
     if isinstance(x, SymMat):
         return x.n
+    if isinstance(x, (Ragged, RaggedCat)):
+        return x.n
+    if isinstance(x, Row):
+        return x.length
+    if isinstance(x, SymSet):
+        return Card(x)
+    if isinstance(x, (list, tuple)) and any(isinstance(v, GenericSInt) for v in x):
+        raise core.OutsideSubset("len() of a list built by a comprehension over a sequence of symbolic length")
     return len(x)
 
 
@@ -311,6 +319,8 @@ class NumpyStub:
     def array(self, x, *a, **k):
         if isinstance(x, (SymVecs, SymMat)):
             return x
+        if isinstance(x, Ragged):
+            raise ReachedMatrix(x.name)
         raise core.OutsideSubset("numpy.array(%r)" % (x,))
 
     asarray = array
@@ -365,3 +375,156 @@ class NumpyStub:
 
     def __getattr__(self, name):
         raise core.OutsideSubset("numpy.%s is not among the contract stubs of the evec_sort harness" % name)
+
+
+# ---------------------------------------------------------------------------------------------------------------------------
+# the dimension check in front of evec_sort's loop, for lists of vectors of ARBITRARY (not necessarily square) symbolic shape
+#
+#   Ragged(name, n, L)      a list of n rows, row k has length L(k)       (n an SInt, L an uninterpreted Int -> Int function)
+#   a + b                   RaggedCat: length a.n + b.n, row g is a's row g for g < a.n, b's row g - a.n otherwise
+#   for x in <ragged>       MAP RULE for comprehensions: the iterator yields ONE generic row (index g, 0 <= g < length) with branching
+#                           switched off (symnp.NO_FORK), so the element expression is evaluated once, on the generic row; what it returns
+#                           (a GenericSInt) stands for the family { value(g) : 0 <= g < length } and refuses every operation (comparison,
+#                           arithmetic, hashing, indexing, truth) except being collected by the `set` stub, so that anything that is not an
+#                           element-wise map into a set construction ends as OutsideSubset, never as a wrong verdict
+#   set([...])              SymSet of listed members and families;  len(s) == 1  <=>  every member and every family value equals the first
+#                           listed member;  x in s  <=>  x equals a listed member or some family value
+#   numpy.array(<ragged>)   ReachedMatrix: the check let the input through
+
+
+class ReachedMatrix(Exception):
+    """the code went on to build the overlap matrix, i.e. the dimension check accepted the input"""
+
+
+class GenericSInt:
+    """value of an element-wise map at the generic index g of a sequence of symbolic length `total`"""
+
+    def __init__(self, z, g, total):
+        self.z, self.g, self.total = z, g, total
+
+    def _no(self, *a, **k):
+        raise core.OutsideSubset("a value computed from the GENERIC element of a sequence of symbolic length is used outside a set construction")
+
+    __eq__ = __ne__ = __lt__ = __le__ = __gt__ = __ge__ = __add__ = __radd__ = __sub__ = __rsub__ = __mul__ = __rmul__ = _no
+    __bool__ = __index__ = __int__ = __float__ = __hash__ = __neg__ = __abs__ = __floordiv__ = __truediv__ = __mod__ = _no
+
+    def __repr__(self):
+        return "GenericSInt(%s for 0 <= %s < %s)" % (self.z, self.g, self.total)
+
+
+class Row:
+    def __init__(self, length):
+        self.length = length
+
+    def __len__(self):
+        raise looprule.Unavailable("len() of a row of symbolic length must be a Python int")
+
+    def __iter__(self):
+        raise core.OutsideSubset("iteration over a row of symbolic length")
+
+
+class _RaggedBase:
+    def rowlen(self, g):
+        raise NotImplementedError
+
+    def __iter__(self):
+        from vf import symnp
+        g = fresh("g", z3.IntSort())
+        symnp.NO_FORK[0] += 1
+        try:
+            yield Row(GenericSInt(self.rowlen(g), g, self.n.z))
+        finally:
+            symnp.NO_FORK[0] -= 1
+
+    def __len__(self):
+        raise looprule.Unavailable("len() of a list of symbolic length must be a Python int")
+
+    def __getitem__(self, k):
+        raise core.OutsideSubset("indexing a list of vectors of symbolic shape")
+
+    def __add__(self, o):
+        if not isinstance(o, _RaggedBase):
+            raise core.OutsideSubset("concatenation with %r" % (o,))
+        return RaggedCat(self, o)
+
+
+class Ragged(_RaggedBase):
+    def __init__(self, name, n, L):
+        self.name, self.n, self.L = name, n, L
+
+    def rowlen(self, g):
+        return self.L(g)
+
+
+class RaggedCat(_RaggedBase):
+    def __init__(self, a, b):
+        self.a, self.b = a, b
+        self.n = SInt(a.n.z + b.n.z)
+
+    def rowlen(self, g):
+        return z3.If(g < self.a.n.z, self.a.rowlen(g), self.b.rowlen(g - self.a.n.z))
+
+
+class SymSet:
+    def __init__(self, items):
+        self.members, self.families = [], []
+        for v in items:
+            if isinstance(v, GenericSInt):
+                self.families.append(v)
+            elif isinstance(v, SInt):
+                self.members.append(v.z)
+            elif isinstance(v, int) and not isinstance(v, bool):
+                self.members.append(z3.IntVal(v))
+            else:
+                raise core.OutsideSubset("set member %r" % (v,))
+        if not self.members:
+            raise core.OutsideSubset("a set without a listed member")
+
+    def all_equal_first(self):
+        m0 = self.members[0]
+        out = [m == m0 for m in self.members[1:]]
+        for f in self.families:
+            out.append(z3.ForAll([f.g], z3.Implies(z3.And(f.g >= 0, f.g < f.total), f.z == m0)))
+        return z3.And(*out) if out else z3.BoolVal(True)
+
+    def contains(self, x):
+        out = [m == x for m in self.members]
+        for f in self.families:
+            out.append(z3.Exists([f.g], z3.And(f.g >= 0, f.g < f.total, f.z == x)))
+        return z3.Or(*out)
+
+    def __contains__(self, x):
+        from vf import symnp
+        return symnp.truth(self.contains(SInt.of(x)))
+
+    def __len__(self):
+        raise looprule.Unavailable("len() of a set of symbolic integers must be a Python int")
+
+    def __iter__(self):
+        raise core.OutsideSubset("iteration over a set of symbolic integers")
+
+
+class Card:
+    """len(<SymSet>): only the comparison with 1 has a contract"""
+
+    def __init__(self, s):
+        self.s = s
+
+    def __eq__(self, o):
+        if not (isinstance(o, int) and not isinstance(o, bool) and o == 1):
+            raise core.OutsideSubset("cardinality of a symbolic set compared with %r" % (o,))
+        return SB(self.s.all_equal_first())
+
+    def __ne__(self, o):
+        if not (isinstance(o, int) and not isinstance(o, bool) and o == 1):
+            raise core.OutsideSubset("cardinality of a symbolic set compared with %r" % (o,))
+        return SB(z3.Not(self.s.all_equal_first()))
+
+    __hash__ = None
+
+
+def sym_set(items=()):
+    items = list(items) if isinstance(items, (list, tuple)) else items
+    if isinstance(items, list) and any(isinstance(v, (SInt, GenericSInt)) for v in items):
+        return SymSet(items)
+    return set(items)
